@@ -127,6 +127,13 @@ def generate(rng, tier, idx):
         for _ in range(rng.choice([1, 1, 2])):
             chosen = rng.sample(glist, rng.randrange(0, len(glist) + 1)) if glist else []
             regen.append({'edits': [dict(e) for g_ in chosen for e in g_]})
+    if mode == 'meta' and roles.get('ebuildless') and rng.random() < 0.6:
+        # a package that had no ebuild at generation time (the script gave it Manifest.gz) gets its first ebuild together
+        # with a plain Manifest carrying the DIST entry (what the package tools write), then the generator runs again
+        d = rng.choice(roles['ebuildless'])
+        regen.append({'edits': [{'m': 'add', 'p': '%s/%s-1.ebuild' % (d, os.path.basename(d)), 'k': 'file', 'c': 'first ebuild'},
+                                {'m': 'add', 'p': d + '/Manifest', 'k': 'file',
+                                 'c': 'DIST %s-1.tar.gz 3 SHA512 %s\n' % (os.path.basename(d), 'ab' * 64)}]})
     if rng.random() < 0.3:
         # files around and beyond the scripts' read-block sizes (64 KiB, 1 MiB): the scripts have their own reading code
         fl = [t for t in g['tree'] if t.get('k', 'file') == 'file' and t['p'] != 'profiles/categories' and 'c' in t]
